@@ -1,6 +1,6 @@
 """Table of claimed properties -> MANIFEST.json (bin/mkmanifest)."""
 
-HOOK_COMMITS = ["612012a", "52c5ec9"]
+HOOK_COMMITS = ["612012a", "52c5ec9", "f8ba99f"]
 
 COMMON_NOTE = ("Trusted: Lean 4.33 kernel; axioms limited to propext/Classical.choice/Quot.sound (audited with #print axioms on every run); "
                "the go/factx translator and the correspondence harness/generators/canonicalisers; Go's encoding/json, strconv, unicode/utf8 as executable "
